@@ -190,6 +190,20 @@ type PointSpec struct {
 
 func (ps PointSpec) Build() *input.Point {
 	pt := &input.Point{}
+	// the object has carried another record before (a host that re-initialises its points): every key of
+	// this record was a string field then. What InitPt makes of (measurement, tags, fields, time) is all
+	// that counts.
+	if len(ps.Tags)+len(ps.Fields) > 0 {
+		prev := map[string]any{"previous_only": int64(1)}
+		for k := range ps.Tags {
+			prev[k] = "previous record"
+		}
+		for k := range ps.Fields {
+			prev[k] = "previous record"
+		}
+		input.InitPt(pt, "previous", map[string]string{"previous_tag": "x"}, prev, time.Unix(0, 1))
+		pt.Drop = true
+	}
 	tags := map[string]string{}
 	for k, v := range ps.Tags {
 		tags[k] = v
